@@ -124,3 +124,57 @@ def equal_arrays(a, b):
         if a[idx] is not b[idx]:
             diff.append(idx)
     return diff
+
+
+# ---------------------------------------------------------------------------------------------------
+def concretize(args, env, default=0.0):
+    """Replace every symbolic leaf (object array / DAG node) of a pytree by its float value under env
+    (symbol name -> value); concrete leaves pass through.  Used to replay a counterexample of a DAG
+    comparison on the real API with the same function and the same argument structure."""
+    import jax
+    import jax.numpy as jnp
+
+    def conv(x):
+        if isinstance(x, N):
+            return jnp.asarray(float(sym.evalf(x, _Env(env, default))))
+        if sym.is_sym(x):
+            flat = [float(sym.evalf(n, _Env(env, default))) for n in x.reshape(-1)]
+            return jnp.asarray(np.asarray(flat, dtype=float).reshape(x.shape))
+        return x
+    return jax.tree_util.tree_map(conv, args, is_leaf=lambda x: isinstance(x, (N, np.ndarray)))
+
+
+class _Env(dict):
+    def __init__(self, env, default):
+        super().__init__(env); self._d = default
+
+    def __missing__(self, k):
+        return self._d
+
+
+class Run:
+    """A traced call of the real API: symbolic value plus concrete re-execution of the same closure."""
+
+    def __init__(self, fn, args, enc):
+        self.fn, self.args = fn, args
+        self.sym = enc(fn, *args)
+
+    def concrete(self, env):
+        import jax
+        out = self.fn(*concretize(self.args, env))
+        return jax.tree_util.tree_map(lambda a: np.asarray(a, dtype=float), out)
+
+
+def real_api_differs(runA, runB, select, env, tol=1e-9):
+    """Re-run both closures on the real API at the concrete input `env` and compare the selected outputs.
+    select(resultA, resultB) -> (listA, listB) must work on float arrays as it does on object arrays."""
+    a, b = runA.concrete(env), runB.concrete(env)
+    la, lb = select(a, b)
+    la = np.asarray([float(x) for x in la]); lb = np.asarray([float(x) for x in lb])
+    if la.shape != lb.shape:
+        return True, float("inf")
+    ok = ~(np.isnan(la) & np.isnan(lb))
+    if not ok.any():
+        return False, 0.0
+    d = float(np.max(np.abs(la[ok] - lb[ok]) / (1 + np.abs(la[ok]) + np.abs(lb[ok]))))
+    return (not np.isfinite(d)) or d > tol, d
